@@ -189,8 +189,13 @@ def run_programs(progs):
                 if body is None:
                     continue
                 opts = dict(OPTS0, **(p.get("opts") or {}))
-                cpy, env0 = run_cpython(p["src"], opts)
-                pys = await run_pyscript(p["src"], opts)
+                try:
+                    cpy, env0 = run_cpython(p["src"], opts)
+                    pys = await run_pyscript(p["src"], opts)
+                except RecursionError:
+                    # a container that (indirectly) contains itself has no finite structural description: the program is
+                    # dropped (counted by execute() in coverage.programs_dropped)
+                    continue
                 c = dict(p)
                 c.update(body=body, env0=env0, opts=opts, cpy=cpy, pys=pys)
                 out.append(c)
@@ -228,6 +233,20 @@ def pure(n):
         return True
     if k in ("Tuple", "List"):
         return all(pure(e) for e in n["elts"])
+    return False
+
+
+def surely_rec(n):
+    """the value of n is a recorder object whenever its evaluation completes (syntactic)"""
+    k = n.get("k")
+    if k == "T":
+        return True
+    if k == "Name":
+        return n["id"] in ("a0", "d0", "o0", "m0", "f")
+    if k == "Call":
+        return n["f"].get("k") == "Name" and n["f"]["id"] in ("g", "f")
+    if k in ("Subscript", "Attribute"):
+        return surely_rec(n["v"])
     return False
 
 
@@ -297,7 +316,9 @@ def feats(body, opts, cpy_exc=""):
         elif k == "AugAssign":
             if n["op"] == "matmul":
                 F.add("matmul-unsupported")
-            if not opts.get("noinplace"):
+            if not opts.get("noinplace") or not surely_rec(n["v"]):
+                # (with a plain right-hand side the target may be a plain list / set / dict, whose OWN in-place
+                # operator changes the object every alias sees - whatever the recorder mode)
                 F.add("aug-binary-op")
             t = n["t"]
             if (t["k"] == "Subscript" and not (pure(t["v"]) and pure(t["s"]))) or (t["k"] == "Attribute" and not pure(t["v"])):
@@ -727,6 +748,125 @@ def gen_scope():
     return out
 
 
+# ---- alias family (Round 4): plain MUTABLE containers as objects.  Every way a program gets hold of a list (a display,
+# a second name, a multiple assignment, an element of another container, a starred target, a comprehension, a slice copy,
+# a walrus, a boolean / conditional expression ...)  x  every operation that changes an object in place or hands its items
+# out (subscript / slice stores, del, in-place operators, unpacking whose own targets store into the object being
+# unpacked, comprehension targets, holders that keep a reference)  x  the kind of items (plain, recorder objects, nested
+# lists).  x is the object operated on, z the second access path: an ALIAS of x or an equal but DISTINCT object, depending
+# on the prelude - every form is therefore run on both sides of "the same object / a copy".
+# (The templates, tables and random programs only ever unpack / store into recorder wrappers `t(n, [..])` - whose
+# items travel through iter/next/setitem events - or display values nobody else references: "a name bound to a plain list
+# that another access path can see change" was outside the generated space, and PyExprCore treated a store into a plain
+# container as not-modelled.)
+ALIAS_ITEMS = [("int", "[1, 2, 3]"), ("rec", "[t(91), t(92), t(93)]"), ("nest", "[[1, 2], [3, 4], [5, 6]]")]
+ALIAS_PRELUDES = [
+    ("fresh2", "x = {L}\nz = {L}"),               # equal, distinct
+    ("multi", "x = z = {L}"),
+    ("name", "z = {L}\nx = z"),
+    ("elem", "z = [{L}, 0]\nx = z[0]"),
+    ("tupelem", "z = ({L}, 0)\nx, _u = z"),
+    ("star", "_u, *x = [0, *{L}]\nz = x"),
+    ("comp", "x = [v for v in {L}]\nz = x"),
+    ("dictelem", "z = {'k': {L}}\nx = z['k']"),
+    ("copy", "x = {L}\nz = x[:]"),
+    ("starcopy", "x = {L}\nz = [*x]"),
+    ("concat", "x = {L}\nz = x + []"),
+    ("pair", "x = {L}\nz = (x, x)"),
+    ("walrus", "z = (x := {L})"),
+    ("boolop", "x = {L}\nz = x or [0]"),
+    ("ifexp", "x = {L}\nz = [0] if not x else x"),
+]
+ALIAS_FORMS = [
+    # unpacking whose targets store into the object being unpacked: all items are taken BEFORE the first store
+    ("unpack/store1", "x[1], a, b = x"),
+    ("unpack/store21", "x[2], x[1], a = x"),
+    ("unpack/mid", "a, x[2], b = x"),
+    ("unpack/last", "a, b, x[0] = x"),
+    ("unpack/neg", "x[-1], a, b = x"),
+    ("unpack/star", "x[1], *r = x"),
+    ("unpack/starmid", "x[2], *r, a = x"),
+    ("unpack/starlast", "*r, x[0] = x"),
+    ("unpack/slice", "x[0:2], a, b = x"),
+    ("unpack/slicetail", "x[1:], a, b = x"),
+    ("unpack/nested", "(x[0][1], a), b, c = x"),
+    ("unpack/listtarget", "[x[1], a, b] = x"),
+    ("unpack/fromz", "x[1], a, b = z"),
+    ("unpack/intoz", "z[1], a, b = x"),
+    ("unpack/twice", "x[1], a, b = c, d, e = x"),
+    ("unpack/holder", "(x[1], a, b), c = (x, 0)"),
+    ("unpack/comp", "r = [a for x[1], a, _b in [x]]"),
+    ("unpack/swap", "x[0], x[1] = x[1], x[0]"),
+    ("unpack/rotate", "x[0], x[1], x[2] = x[1:] + x[:1]"),
+    ("unpack/starfresh", "a, *r = x\nr[0] = 9"),
+    ("unpack/del", "a, b, c = x\ndel x[0]\nd, e = x"),
+    # a store / del / in-place operator through one path, read through the other
+    ("store/int", "x[0] = 9"),
+    ("store/rec", "x[0] = t(1)"),
+    ("store/viaz", "z[0] = 9"),
+    ("store/slice", "x[1:2] = [7, 8]"),
+    ("store/sliceall", "x[:] = [7]"),
+    ("store/sliceself", "x[1:1] = x"),
+    ("store/deep", "x[0][0] = 9"),
+    ("store/multi", "x[0] = x[1] = t(1)"),
+    ("store/shared", "x[0] = a = [5]\na[0] = 6"),
+    ("store/range", "x[3] = 9"),
+    ("del/item", "del x[0]"),
+    ("del/slice", "del x[1:]"),
+    ("del/all", "del x[:]\na = t(1) if z else t(2)\nb = not x"),
+    ("del/name", "del x\na = z"),
+    ("aug/list", "x += [7]"),
+    ("aug/tuple", "x += (7, 8)"),
+    ("aug/self", "x += x"),
+    ("aug/mul", "x *= 2"),
+    ("aug/item", "x[0] += t(1)"),
+    ("aug/itemlist", "x[0] += [9]"),
+    ("aug/sliceitem", "x[0:1] += [5]"),
+    ("rebind/concat", "x = x + [7]"),
+    ("rebind/new", "x = [0]\na = z"),
+    # holders keep a reference (or a copy)
+    ("hold/list", "a = [x, x]\nx[0] = 9"),
+    ("hold/tuple", "a = (x, 1)\nx[0] = 9"),
+    ("hold/dict", "a = {'k': x}\nx[0] = 9"),
+    ("hold/slicecopy", "a = x[:]\nx[0] = 9"),
+    ("hold/starcopy", "a = [*x]\ndel x[0]"),
+    ("hold/comp", "a = [v for v in x]\nx[0] = 9"),
+    ("hold/callsnap", "a = g(x)\nx[0] = 9\nb = g(z, k=x)"),
+    ("hold/fstr", "x[0] = 9\na = f'{z}'"),
+    ("ident", "a = x is z\nb = x is not z\nc = x[:] is x\nd = x is x"),
+    # a comprehension iterates the live object; its target may store into it
+    ("comp/store", "a = [x[2] for x[2] in z]"),          # (live: the third item read is the one the second step stored)
+    ("comp/store1", "a = [v for x[1], v in [(7, z), (8, x)]]"),
+    ("comp/read", "x[0] = 9\na = [v for v in z if v]"),
+]
+ALIAS_DICT_PRELUDES = [("fresh2", "d = {'a': 1, 'b': 2}\ne = {'a': 1, 'b': 2}"), ("multi", "d = e = {'a': 1, 'b': 2}"),
+                       ("copy", "d = {'a': t(91), 'b': t(92)}\ne = {**d}"), ("elem", "e = [{'a': 1, 'b': [2]}]\nd = e[0]")]
+ALIAS_DICT_FORMS = [
+    ("store/old", "d['a'] = 9"), ("store/new", "d['c'] = t(1)"), ("store/reckey", "d[t(1)] = 9"), ("del", "del d['a']"),
+    ("del/missing", "del d['zz']"), ("get/missing", "p = d['zz']"), ("unpack/store", "d['a'], p = d"),
+    ("unpack/newkey", "d['c'], p = d"), ("unpack/short", "d['c'], p, q = d"), ("aug/item", "d['a'] += t(1)"),
+    ("aug/or", "d |= {'c': 3}"), ("comp/store", "p = [0 for d['a'] in e]"), ("dstar", "p = {**d, 'z': 0}\nd['a'] = 9"),
+    ("call", "p = g(**d)\nd['a'] = 9\nq = g(e)"), ("deep", "d['b'][0] = 9"), ("truth", "del d['a'], d['b']\np = t(1) if e else t(2)"),
+]
+ALIAS_SET_FORMS = [("aug/or", "s |= {3}"), ("aug/sub", "s -= {1}"), ("rebind", "s = s | {3}"), ("store", "s[0] = 1"),
+                   ("hold", "p = [s, u]\ns |= {4}")]
+
+
+def gen_alias():
+    out = []
+    for ptag, pre in ALIAS_PRELUDES:
+        for itag, lit in ALIAS_ITEMS:
+            for ftag, form in ALIAS_FORMS:
+                out.append(("alias/%s/%s/%s" % (ftag, ptag, itag), "%s\n%s" % (pre.replace("{L}", lit), form)))
+    for ptag, pre in ALIAS_DICT_PRELUDES:
+        for ftag, form in ALIAS_DICT_FORMS:
+            out.append(("alias/dict/%s/%s" % (ftag, ptag), "%s\n%s" % (pre, form)))
+    for ptag, pre in (("fresh2", "s = {1, 2}\nu = {1, 2}"), ("multi", "s = u = {1, 2}")):
+        for ftag, form in ALIAS_SET_FORMS:
+            out.append(("alias/set/%s/%s" % (ftag, ptag), "%s\n%s" % (pre, form)))
+    return out
+
+
 class RandGen:
     """random deep nestings; masked=True avoids every construct at which a known deviation applies."""
 
@@ -737,6 +877,7 @@ class RandGen:
         self.n = 0
         self.rvars = []        # names bound to recorder values
         self.pvars = []        # names bound to plain values
+        self.lvars = {}        # names bound to plain LISTS -> [current length] (shared by the aliases of one object)
 
     def leaf(self, lit=None):
         self.n += 1
@@ -912,7 +1053,66 @@ class RandGen:
     def stmt(self):
         r, d = self.r, self.depth
         k = r.choice(["assign", "assign", "assignp", "multi", "subassign", "attrassign", "aug", "augsub", "augattr",
-                      "unpack", "unpackstar", "unpackdisp", "del", "delsub", "delattr", "expr", "expr"])
+                      "unpack", "unpackstar", "unpackdisp", "del", "delsub", "delattr", "expr", "expr",
+                      "lassign", "lstore", "lunpack"])
+        if k in ("lstore", "lunpack") and not self.lvars:
+            k = "lassign"
+        if k == "lassign":
+            # a plain list object: a new one, or a second name for an existing one
+            n = r.choice(["l1", "l2", "l3"])
+            if self.lvars and r.random() < 0.4:
+                src = r.choice(sorted(self.lvars))
+                self.lvars[n] = self.lvars[src]
+                return "%s = %s" % (n, src)
+            ln = r.randint(1, 3)
+            self.lvars[n] = [ln]
+            return "%s = [%s]" % (n, ", ".join(self.rec(min(d - 1, 1)) if r.random() < 0.7 else r.choice(["1", "'s'", "None", "[5]"]) for _ in range(ln)))
+        if k == "lstore":
+            # the object changes in place: item / slice store, del, += (every alias sees it)
+            n = r.choice(sorted(self.lvars))
+            ln = self.lvars[n]
+            kind = r.choice(["item", "item", "slice", "del", "delslice"] + ([] if self.m else ["aug"]))
+            i = r.randint(-1, ln[0]) if r.random() < 0.15 else r.randint(0, max(0, ln[0] - 1))
+            j = r.randint(i, ln[0] + 1)
+            shadow = list(range(ln[0]))
+            try:
+                if kind == "item":
+                    shadow[i] = 0
+                    return "%s[%d] = %s" % (n, i, self.any(min(d - 1, 1)))
+                if kind == "slice":
+                    cnt = r.randint(0, 2)
+                    shadow[i:j] = [0] * cnt
+                    return "%s[%d:%d] = [%s]" % (n, i, j, ", ".join(self.rec(min(d - 1, 1)) for _ in range(cnt)))
+                if kind == "del":
+                    del shadow[i]
+                    return "del %s[%d]" % (n, i)
+                if kind == "delslice":
+                    del shadow[i:j]
+                    return "del %s[%d:%d]" % (n, i, j)
+                shadow += [0]
+                return "%s += [%s]" % (n, self.rec(min(d - 1, 1)))
+            except IndexError:
+                return "%s[%d] = %s" % (n, i, self.rec(min(d - 1, 1)))      # (raises: the program ends here)
+            finally:
+                ln[0] = len(shadow)
+        if k == "lunpack":
+            # unpacking a plain list object; one of the targets stores into a list object - possibly the same one
+            src = r.choice(sorted(self.lvars))
+            dst = r.choice(sorted(self.lvars))
+            ln = self.lvars[src][0]
+            if not 1 <= ln <= 3 or not self.lvars[dst][0]:
+                return "%s = %s" % (r.choice("pq"), src)
+            names = r.sample(["x", "y", "z"], ln)
+            tg = list(names)
+            tg[r.randrange(ln)] = "%s[%d]" % (dst, r.randrange(self.lvars[dst][0]))
+            if ln >= 2 and r.random() < 0.25:
+                si = r.choice([i for i, t in enumerate(tg) if "[" not in t])
+                tg[si] = "*" + tg[si]
+            for n_ in names:
+                self.bind(n_, False)
+                if n_ in self.pvars and "*" + n_ in tg:
+                    pass
+            return "%s = %s" % (", ".join(tg) + ("," if len(tg) == 1 else ""), src)
         if k == "assign":
             n = r.choice("xyz")
             s = "%s = %s" % (n, self.rec(d))
@@ -1174,6 +1374,45 @@ def selftest(ctx, cases):
     if spool and nscope < 40:
         raise MachineryFailure("selftest: too few scope recordings to corrupt (%d)" % nscope)
     ctx.cov["selftest_binding_corruptions"] = nscope
+    # plain mutable containers (Round 4): final values of accepted alias-family recordings are falsified the way a wrong
+    # object model would - an item of the final x replaced ("the store did not happen / happened elsewhere"), the second
+    # access path z given the other side's content ("an alias treated as a copy, a copy as an alias"), a name that an
+    # unpacking target bound given the value found at another position of the object AFTERWARDS ("the items were read
+    # while the targets were being stored" - what a missing snapshot does)
+    def scalar(d):
+        return d.get("k") in ("c", "v")
+
+    def differs(a, b):
+        return (a.get("k"), a.get("t"), a.get("s"), a.get("id")) != (b.get("k"), b.get("t"), b.get("s"), b.get("id"))
+
+    apool = [c for c in cases if c.get("fam") == "alias" and not c["cpy"]["exc"]
+             and c["id"].split("/")[1] in ("unpack", "store", "del", "hold", "rebind")]
+    r.shuffle(apool)
+    upool = [c for c in apool if c["id"].split("/")[1] == "unpack"]
+    nalias = {"item": 0, "path": 0, "live": 0}
+    for c in upool[:35] + [c for c in apool if c["id"].split("/")[1] != "unpack"][:35]:
+        fin = c["cpy"]["final"]
+        x, z = fin.get("x"), fin.get("z")
+        muts = []
+        if x and x.get("k") == "seq" and x["e"] and scalar(x["e"][0]) and differs(x["e"][0], other):
+            muts.append(("item", "x", dict(x, e=[other] + x["e"][1:])))
+        if x and z and x.get("k") == "seq" and z.get("k") == "seq" and z["t"] == "list" and z["e"] and scalar(z["e"][-1]):
+            muts.append(("path", "z", dict(z, e=z["e"][:-1] + [other]) if z == x else x))
+        if x and x.get("k") == "seq":
+            for m in ("a", "b", "c") if c["id"].split("/")[1] == "unpack" else ():     # (names bound by the unpacking itself)
+                alt = [e for e in x["e"] if m in fin and scalar(e) and scalar(fin[m]) and differs(e, fin[m])]
+                if alt:
+                    muts.append(("live", m, alt[0]))
+                    break
+        for name, m, val in muts:
+            c7 = copy.deepcopy(c)
+            c7["id"] = "corrupt-alias-%s-%s/%s" % (name, m, c["id"])
+            c7["cpy"]["final"][m] = val
+            bad.append(c7)
+            nalias[name] += 1
+    if any(c.get("fam") == "alias" for c in cases) and min(nalias.values()) < 8:
+        raise MachineryFailure("selftest: too few alias recordings to corrupt (%s)" % nalias)
+    ctx.cov["selftest_alias_corruptions"] = nalias
     if len(bad) < 20:
         raise MachineryFailure("selftest: nothing to corrupt")
     rej = tlc_batches(ctx, bad, "corrupt", 2)
@@ -1197,19 +1436,46 @@ def build_programs(ctx):
     if ctx.quick:
         # quick tier: every template as written and with a raising operand at every child position (both
         # spaces); a seeded sample of the kind substitutions and of the operator x kind tables
-        base = [x for x in tpls if x[0].count("/") == 1 or "raise@" in x[0]]
+        base = [x for x in tpls if x[0].count("/") == 1]
+        rais = [x for x in tpls if "raise@" in x[0]]
         rest = [x for x in tpls if not (x[0].count("/") == 1 or "raise@" in x[0])]
         add("template", base, [OPTS0, QUIET])
+        # (Round 4: a raising operand at every child position - alternating between the two recorder modes, the parity
+        # chosen by the seed - instead of both modes for each: the quick tier's budget went to the alias family)
+        add("template", rais, [OPTS0, QUIET] if r.random() < 0.5 else [QUIET, OPTS0], alternate=True)
         add("template", r.sample(rest, len(rest) // 12), [OPTS0, QUIET], alternate=True)
         add("table", r.sample(tables, len(tables) // 8), [OPTS0, QUIET], alternate=True)
-        # scope family: complete in the quiet mode (masked space), a seeded eighth also in the full mode
+        # scope family: in the quiet mode (masked space) every form with two thirds of the bindings (rotating with the
+        # form and the seed: every form x binding pair is reached by two of three consecutive seeds), a seeded eighth
+        # of the whole product also in the full mode
         scope = gen_scope()
-        add("scope", scope, [QUIET])
+        rot = r.randrange(3)
+        nb = len(scope_bindings())
+        add("scope", [x for k, x in enumerate(scope) if (k // len(SCOPE_FORMS) + k % len(SCOPE_FORMS) + rot) % 3], [QUIET])
         add("scope", r.sample(scope, len(scope) // 8), [OPTS0])
+        # alias family: in the quiet mode every list form with a third of the preludes, the kind of items rotating
+        # (form x prelude x items: rotating with the seed), all dict / set programs; a seeded 24th of the whole product
+        # also in the full mode.  (thorough: everything in both modes)
+        alias = gen_alias()
+        fidx = {f[0]: i for i, f in enumerate(ALIAS_FORMS)}
+        pidx = {q[0]: i for i, q in enumerate(ALIAS_PRELUDES)}
+        iidx = {it[0]: i for i, it in enumerate(ALIAS_ITEMS)}
+        pick = []
+        for pid, src in alias:
+            parts = pid.split("/")
+            if parts[1] in ("dict", "set"):
+                pick.append((pid, src))
+                continue
+            fi, pi, ii = fidx["/".join(parts[1:-2])], pidx[parts[-2]], iidx[parts[-1]]
+            if (fi + pi + rot) % 3 == 0 and (fi + pi // 3 + rot) % 3 == ii:
+                pick.append((pid, src))
+        add("alias", pick, [QUIET])
+        add("alias", r.sample(alias, len(alias) // 24), [OPTS0])
     else:
         add("table", tables, [OPTS0, QUIET])
         add("template", tpls, [OPTS0, QUIET])
         add("scope", gen_scope(), [OPTS0, QUIET])
+        add("alias", gen_alias(), [OPTS0, QUIET])
     add("witness", [("witness/%d" % i, f["witness"]) for i, f in enumerate(ctx.findings) if f.get("status") == "known"], [OPTS0])
     only = os.environ.get("VERIF_C01_FAMILIES")       # development aid (tools/c01_try_fix.sh): restrict the families
     if only:
@@ -1229,6 +1495,7 @@ def execute(ctx, progs, nproc=12):
     jobs = [{"progs": progs[i::nproc]} for i in range(nproc)]
     outs = run_workers("harness.drivers.c01", "work", jobs, ctx.scratch, nproc=nproc)
     cases = [c for o in outs for c in o]
+    ctx.cov["programs_dropped"] = ctx.cov.get("programs_dropped", 0) + len(progs) - len(cases)
     for c in cases:
         c["feats"] = sorted(feats(c["body"], c["opts"], c["cpy"]["exc"]))
         c["masked"] = (c["opts"] == QUIET) and not c["feats"]
@@ -1295,7 +1562,9 @@ def main(ctx):
         raise MachineryFailure("vacuous coverage: %s" % stats)
     for c in [c for c in cases if c["fam"] == "random" and c["id"] in accepted][:2] + [c for c in cases if c["fam"] == "template"][:1]:
         ctx.sample({"src": c["src"], "opts": c["opts"], "events": len(c["cpy"]["trace"]), "exc": c["cpy"]["exc"]})
-    selftest(ctx, [c for c in cases if c["id"] in accepted])
+    # (the self-test corrupts CPython's recordings only: its pool must not depend on what the code under test does -
+    # every case whose CPython recording the specification accepts, whatever the verdict on pyscript's recording)
+    selftest(ctx, [c for c in cases if not any(r["who"] == "cpy" for r in rej.get(c["id"], []))])
     ctx.assumptions += [
         "__bool__/__hash__/dict-insertion __eq__ are not events; truthiness of a recorder object is fixed at creation",
         "placement of the iteration of a sole starred call argument and of the f-string conversion relative to the format spec follow CPython 3.12; both placements are accepted",
@@ -1392,6 +1661,48 @@ def scoped_names(tree):
     return sorted(comp - other)
 
 
+# heap skeletons (Round 4): (tag, source); x / z = two access paths to a plain container
+SK_HEAP = [
+    ("snap", "x = [#, #, #]\nx[1], a, b = x"),
+    ("snap", "x = [#, #, #]\na, x[2], b = x"),
+    ("snap", "x = [#, #, #]\nx[2], *r = x"),
+    ("snap", "x = z = [#, #]\nx[1], a = z"),
+    ("snap", "x = [[#, #], #]\n(x[0][1], a), b = x"),
+    ("alias", "x = z = [#, #]\nx[0] = #"),
+    ("alias", "z = [#, #]\nx = z\nx[1:] = [#, #]"),
+    ("alias", "z = [[#], #]\nx = z[0]\nz = x\nx[0] = #"),
+    ("alias", "x = z = [#, #]\ndel x[0]"),
+    ("alias", "x = z = [#]\nx += [#]"),
+    ("alias", "x = z = {'k': #}\nx['j'] = #\ndel z['k']"),
+    ("copy", "x = [#, #]\nz = x[:]\nx[0] = #"),
+    ("copy", "x = [#, #]\nz = [*x]\ndel x[0]"),
+    ("copy", "x = [#]\nz = x + [#]\nx[0] = #"),
+    ("copy", "_u, *x = [#, #, #]\nz = [v for v in x]\nx[0] = #"),
+]
+
+
+class _Leaf:
+    def __init__(self, n):
+        self.n = n
+
+
+def heap_expect(src):
+    """final bindings CPython leaves behind when the skeleton runs with symbolic leaves (t(n) = the token 'leaf n')"""
+    from pyvalues import desc
+    env = {"t": _Leaf}
+    exec(compile(src, "<sk>", "exec"), env)
+
+    def val(o):
+        if isinstance(o, _Leaf):
+            return {"k": "leaf", "n": o.n}
+        if isinstance(o, (list, tuple)):
+            return {"k": "seq", "t": type(o).__name__, "e": [val(x) for x in o]}
+        if isinstance(o, dict):
+            return {"k": "dict", "ks": [val(x) for x in o.keys()], "vs": [val(x) for x in o.values()]}
+        return {"k": "const", "v": desc(o)}
+    return [{"name": k, "val": val(v)} for k, v in sorted(env.items()) if k not in ("t", "__builtins__", "v") and not k.startswith("_")]
+
+
 def gen_skeletons(ctx, flags=(), scope_only=False):
     from pyvalues import final_bindings, make_env
     srcs = [_number(s) for s in SK_TOP]
@@ -1404,29 +1715,37 @@ def gen_skeletons(ctx, flags=(), scope_only=False):
     # each state re-runs the machine on its prefix: ~400 states/skeleton; sized for < 60 s (quick) on an idle machine
     # stratified by size, offset by the seed: the amount of work is about the same for every seed
     deep = sorted(set(deep), key=lambda x: (len(x), x))
-    n = min(len(deep), ctx.pick(20, 350))
+    n = min(len(deep), ctx.pick(14, 350))
     step = len(deep) / n
     off = 0.0          # the same family for every seed: this part is exhaustive over a fixed family, not a sample
     deep = [deep[min(len(deep) - 1, int((i + off) * step))] for i in range(n)]
     _, env = make_env(OPTS0)
     env0 = final_bindings(env)
+    deepset = set(deep) - set(srcs)
     sk = []
     items = [(src, env0) for src in ([] if scope_only else srcs + deep)]
     for form in SK_SCOPE:
         for pre in SK_PRE.values():
             items.append((_number(form), env0 if pre is None else dict(env0, v=pre, w=pre)))
+    tags = {}
+    if not scope_only:
+        for tag, form in SK_HEAP:
+            tags[len(items)] = tag
+            items.append((_number(form), env0))
     for i, (src, env0) in enumerate(items):
         tree = ast.parse(src)
         order = eval_order(tree)
         plain = sum(len(g.iter.elts) for n in ast.walk(tree) if isinstance(n, (ast.ListComp, ast.SetComp, ast.DictComp))
                     for g in n.generators if isinstance(g.iter, (ast.List, ast.Tuple)))
         sk.append({"id": i, "src": src, "body": [conv(s) for s in tree.body], "env0": env0, "plainiter": plain,
-                   "scoped": scoped_names(tree), "fl": list(flags),
+                   "scoped": scoped_names(tree), "fl": list(flags), "tag": tags.get(i, ""), "deep": src in deepset,
+                   "expect": heap_expect(src) if i in tags else [],
                    "leaves": [{"n": n, "rank": r + 1, "loop": lp} for r, (n, lp) in enumerate(order)]})
     return sk
 
 
-WITNESSES = ["mid-raise", "short-circuit", "loop-twice", "shadowed-read", "raise-while-shadowed", "leak-violates-ScopeRestored"]
+WITNESSES = ["mid-raise", "short-circuit", "loop-twice", "shadowed-read", "raise-while-shadowed", "leak-violates-ScopeRestored",
+             "snapshot-not-live", "alias-sees-store", "copy-keeps"]
 
 
 def model_check(ctx):
@@ -1437,7 +1756,8 @@ def model_check(ctx):
     # the witness run: the same skeletons plus the scope skeletons on the LEAKING variant of the machine (deviation flag
     # comp-leak-on-raise), on which the theorem ScopeRestored must fail
     wpath = os.path.join(ctx.scratch, "c01_skels_w.json")
-    json.dump(sk + gen_skeletons(ctx, flags=["comp-leak-on-raise"], scope_only=True), open(wpath, "w"))
+    # (the witness conditions are all reachable on the top-level / scope / heap skeletons: the depth-2 sample is left out)
+    json.dump([s for s in sk if not s["deep"]] + gen_skeletons(ctx, flags=["comp-leak-on-raise"], scope_only=True), open(wpath, "w"))
     jopts = "-Xss256m -XX:ParallelGCThreads=2"
     wcfg = os.path.join(ctx.scratch, "PyExprMC_witness.cfg")
     open(wcfg, "w").write("SPECIFICATION Spec\nINVARIANT Witness_All\nCHECK_DEADLOCK FALSE\n")
@@ -1463,5 +1783,6 @@ def report_model(ctx, sk, results):
             ctx.add_tlc(res, "PyExprMC: all %d witness conditions observed (run stops at the last one; skeletons + leaking variants)" % len(seen))
     ctx.cov["model_skeletons"] = len(sk)
     ctx.cov["model_scope_skeletons"] = sum(1 for s in sk if set(s["scoped"]) & set(s["env0"]))
-    ctx.cov["model_theorems"] = ["NoStuck", "AtMostOnce", "InOrder", "InOrderLoop", "RaiseLast", "NoSpontaneous", "ScopeRestored"]
+    ctx.cov["model_heap_skeletons"] = sum(1 for s in sk if s["tag"])
+    ctx.cov["model_theorems"] = ["NoStuck", "AtMostOnce", "InOrder", "InOrderLoop", "RaiseLast", "NoSpontaneous", "ScopeRestored", "HeapExpect", "HeapClosed"]
     ctx.cov["model_witnesses_violated_as_expected"] = len(WITNESSES)
